@@ -769,6 +769,84 @@ fn run_pk(c: &PkCase) -> Outcome {
     o
 }
 
+#[derive(Clone, Debug, Hash, Serialize, Deserialize)]
+pub struct EcdhLenCase {
+    pub key: KeyKind,
+    pub len: usize,
+}
+
+/// ECDH wrapping of values of every length (RFC 9580 11.5: the value is padded to a multiple of
+/// 8 octets with 1..8 octets of padding, then AES key wrap).
+fn run_ecdh_len(c: &EcdhLenCase) -> Outcome {
+    let cert = common::cert(c.key, 3);
+    let sub = &cert.secret_subkeys[0].key;
+    let (sec, pubmat, alg) = secret_scalar(&cert);
+    if alg != 18 {
+        return Outcome::trivial("not-ecdh");
+    }
+    let pgp::types::PublicParams::ECDH(params) = sub.public_key().public_params() else {
+        return Outcome::trivial("not-ecdh");
+    };
+    let plain: Vec<u8> = (0..c.len).map(|i| (i as u8).wrapping_mul(29).wrapping_add(3)).collect();
+    let fp = sub.fingerprint();
+    let values = match pgp::crypto::ecdh::encrypt(crate::engine::rng(31 + c.len as u64), params, fp.as_bytes(), &plain) {
+        Ok(v) => v,
+        Err(e) => return Outcome::bad("C12:ecdh-wrap:library-encrypt-error", format!("{c:?}: {e}")),
+    };
+    let pgp::types::PkeskBytes::Ecdh { public_point, encrypted_session_key } = &values else {
+        return Outcome::bad("C12:ecdh-wrap:unexpected-values", format!("{c:?}"));
+    };
+    let oid_len = pubmat[0] as usize;
+    let oid = &pubmat[1..1 + oid_len];
+    let kdfp = &pubmat[pubmat.len() - 4..];
+    let (kdf_hash, kek_alg) = (kdfp[2], kdfp[3]);
+    let point = public_point.as_ref();
+    let z: Option<Vec<u8>> = (|| -> Option<Vec<u8>> {
+        if oid == [0x2B, 0x06, 0x01, 0x04, 0x01, 0x97, 0x55, 0x01, 0x05, 0x01] {
+            let mut s = sec[2..].to_vec();
+            while s.len() < 32 {
+                s.insert(0, 0);
+            }
+            s.reverse();
+            let secret = x25519_dalek::StaticSecret::from(<[u8; 32]>::try_from(&s[..]).unwrap());
+            let eph: [u8; 32] = point.get(1..33)?.try_into().ok()?;
+            Some(secret.diffie_hellman(&x25519_dalek::PublicKey::from(eph)).as_bytes().to_vec())
+        } else if oid == [0x2A, 0x86, 0x48, 0xCE, 0x3D, 0x03, 0x01, 0x07] {
+            use p256::elliptic_curve::sec1::FromEncodedPoint;
+            let mut s = sec[2..].to_vec();
+            while s.len() < 32 {
+                s.insert(0, 0);
+            }
+            let sk = p256::SecretKey::from_slice(&s).ok()?;
+            let ep = p256::EncodedPoint::from_bytes(point).ok()?;
+            let pkp = Option::<p256::PublicKey>::from(p256::PublicKey::from_encoded_point(&ep))?;
+            Some(p256::ecdh::diffie_hellman(sk.to_nonzero_scalar(), pkp.as_affine()).raw_secret_bytes().to_vec())
+        } else {
+            None
+        }
+    })();
+    let Some(z) = z else { return Outcome::trivial("ecdh-curve-not-modelled") };
+    let kek = kdf::ecdh_kek(&z, oid, kdf_hash, kek_alg, fp.as_bytes());
+    let mut o = Outcome::ok("rfc-padding");
+    let wrapped: &[u8] = encrypted_session_key.as_ref();
+    match kdf::aes_kw_unwrap(&kek, wrapped) {
+        Some(m) => {
+            // RFC 8018 style padding: 8 - (len mod 8) octets, each holding that count
+            let padn = 8 - c.len % 8;
+            let mut want = plain.clone();
+            want.extend(std::iter::repeat(padn as u8).take(padn));
+            if m != want {
+                o.push(
+                    "C12:ecdh-wrap:padded-value-differs-from-rfc",
+                    format!("{c:?}: the wrapped value has {} octets ({}), RFC 9580 11.5 gives {} octets ending in {padn} x {padn:#04x}", m.len(), hex::encode(&m[m.len().saturating_sub(9)..]), want.len()),
+                );
+            }
+        }
+        None => o.push("C12:ecdh-wrap:model-cannot-unwrap-library-value", format!("{c:?}: {} wrapped octets", wrapped.len())),
+    }
+    o
+}
+
 pub fn check(ctx: &Ctx) {
     if let Err(e) = cm::self_test().and_then(|_| kdf::self_test()) {
         eprintln!("MACHINERY: reference model self-test against the RFC 9580 sample messages failed: {e}");
@@ -941,6 +1019,19 @@ pub fn check(ctx: &Ctx) {
         pc.into_par_iter(),
         run_pk,
     );
+    let mut ec = Vec::new();
+    for key in [KeyKind::Ed25519LegacyV4, KeyKind::EcdsaP256V4, KeyKind::EcdsaP256V6] {
+        for len in (1..=72usize).chain([119, 120, 121, 231, 232, 233, 238, 239]) {
+            ec.push(EcdhLenCase { key, len });
+        }
+    }
+    ctx.run_space(
+        "ecdh_wrap_every_length",
+        true,
+        "crypto::ecdh::encrypt (Curve25519Legacy, P-256 v4 / v6 fingerprints) of values of EVERY length 1..72 and around 120, 232, 239: the model derives the shared secret with the recipient's scalar, unwraps with RFC 3394 and must find the value followed by 8 - (len mod 8) padding octets (a whole block of 0x08 when the length is a multiple of 8)",
+        ec.into_par_iter(),
+        run_ecdh_len,
+    );
     ctx.assume("primitive crates (block ciphers, hashes, HKDF, AEAD modes, AES-KW, curve arithmetic, Argon2) are trusted; the model is bound to RFC 9580 through the sample messages in /repo/tests/unit-tests/{aead,argon2}");
 }
 
@@ -951,6 +1042,7 @@ pub fn replay(space: &str, case: &Value) -> Option<Outcome> {
         "seipd" => replay_as(case, run_seipd),
         "secret_key_protection" => replay_as(case, run_lock),
         "pkesk_wrapping" => replay_as(case, run_pk),
+        "ecdh_wrap_every_length" => replay_as(case, run_ecdh_len),
         _ => None,
     }
 }
